@@ -41,29 +41,45 @@ Definition complete_data (st : bst mb) (d : list byte) : bst mb :=
 Definition mres_eqb (a b : mres) : bool :=
   match a, b with MErr, MErr => true | MText x, MText y => String.eqb x y | _, _ => false end.
 
-(* one event of the implementation model; false = the observation differs *)
-Definition bstep (tab : list (list byte * string)) (st : bst mb) (e : ev) : bst mb * bool :=
+(* what the implementation model itself outputs for an event *)
+Inductive out := OObs (v : obs) | OM (m : mres) | ONone.
+
+Definition bexec (tab : list (list byte * string)) (st : bst mb) (e : ev) : bst mb * out :=
   match e with
-  | EOp (OWrite h d) v =>
+  | EOp (OWrite h d) _ =>
       match b_write mb st h d with
-      | (st', Ok n) => (st', obs_eqb (VNat n) v)
-      | (st', Err x) => (st', obs_eqb (VErr x) v)
+      | (st', Ok n) => (st', OObs (VNat n))
+      | (st', Err x) => (st', OObs (VErr x))
       end
-  | EOp o v => let '(s', v') := step C (fsys mb st) o in (with_fs mb st s', obs_eqb v' v)
-  | EFlush p sh v =>
+  | EOp o _ => let '(s', v') := step C (fsys mb st) o in (with_fs mb st s', OObs v')
+  | EFlush p sh _ =>
       match b_flush mb st p sh with
-      | (st', Ok _) => (st', obs_eqb VUnit v)
-      | (st', Err x) => (st', obs_eqb (VErr x) v)
+      | (st', Ok _) => (st', OObs VUnit)
+      | (st', Err x) => (st', OObs (VErr x))
       end
-  | EMarshal v =>
+  | EMarshal _ =>
       match b_marshal mb tab st with
-      | (st', Ok t) => (st', mres_eqb (MText t) v)
-      | (st', Err _) => (st', mres_eqb MErr v)
+      | (st', Ok t) => (st', OM (MText t))
+      | (st', Err _) => (st', OM MErr)
       end
-  | ECompleteData d => (complete_data st d, true)
+  | ECompleteData d => (complete_data st d, ONone)
   | EMode m => ({| fsys := fsys mb st; pends := pends mb st; ntok := ntok mb st; nput := nput mb st;
-                   blocks := blocks mb st; mode := m |}, true)
+                   blocks := blocks mb st; mode := m |}, ONone)
   end.
+
+(* does the recorded observation of the event agree with the model's output? *)
+Definition ev_matches (e : ev) (o : out) : bool :=
+  match e, o with
+  | EOp _ v, OObs v' => obs_eqb v' v
+  | EFlush _ _ v, OObs v' => obs_eqb v' v
+  | EMarshal v, OM v' => mres_eqb v' v
+  | ECompleteData _, ONone => true
+  | EMode _, ONone => true
+  | _, _ => false
+  end.
+
+Definition bstep (tab : list (list byte * string)) (st : bst mb) (e : ev) : bst mb * bool :=
+  let '(st', o) := bexec tab st e in (st', ev_matches e o).
 
 Fixpoint brun (tab : list (list byte * string)) (st : bst mb) (es : list ev) : bool :=
   match es with
